@@ -61,7 +61,13 @@ class Histogram:
                 raise ValueError(f"Sum of Histogram frequencies ({sum_values}) differ from 1. by more than an epsilon ({epsilon})."
                     "Please adjust the value of epsilon or adjust shot data.")
 
-            outcomes = {k: round(v*n_shots) for k, v in outcomes.items()}
+            # Round down, then hand the remaining shots to the largest remainders (in key order if equal):
+            # rounding each value separately does not preserve the total number of shots.
+            scaled = {k: v*n_shots for k, v in outcomes.items()}
+            outcomes = {k: int(s // 1) for k, s in scaled.items()}
+            n_missing = round(sum(scaled.values())) - sum(outcomes.values())
+            for k in sorted(scaled, key=lambda k: (outcomes[k] - scaled[k], k))[:n_missing]:
+                outcomes[k] += 1
         elif n_shots < 0:
             raise ValueError(f"The number of shots provided ({n_shots}) must be a positive value.")
 
